@@ -254,12 +254,48 @@ def _places(s):
     return out
 
 
+def dimension_discipline(F, rep, rule="R5"):
+    """Shares, money, unit prices and ratios are all `Decimal`; adding, subtracting or comparing two of different dimension is the
+    wrong-variable slip the type checker cannot see (`remaining = amount − consume_shares_on_date(..)` subtracts a COST from a
+    share count: seeded change C11-s5). Dimensions are inferred by lib/dims.py from field and variable names and through
+    arithmetic and function returns; a site is judged only when both sides are known."""
+    import dims
+    import panics as P_
+    D = dims.Dims(F)
+    bodies = [b for b in F.bodies.values() if b.crate == "cgt_core" and ("::matcher::" in b.id or "::calculator::" in b.id) and P_.user_written(F, b)]
+    bad = D.conflicts(bodies)
+    for b, i, k, d0, d1, t in bad:
+        tb = Terms(F, b, inline_depth=0)
+        rep.ob(rule, f"{b.short}:{k}:{dims.NAMES[d0]}/{dims.NAMES[d1]}", False,
+               f"`{show(tb.operand(t['args'][0]))[:50]}` ({dims.NAMES[d0]}) and `{show(tb.operand(t['args'][1]))[:60]}` ({dims.NAMES[d1]}) are "
+               f"combined by {k}: a number of shares and an amount of money cannot be added, subtracted or compared", b.loc(t["sp"]),
+               key=f"{rule}:{b.short}:{k}:{dims.NAMES[d0]}/{dims.NAMES[d1]}")
+    rep.ob(rule, "dimension-discipline", not bad, f"{D.judged} additions / subtractions / comparisons of Decimals with both dimensions known: all consistent"
+           if not bad else f"{len(bad)} of {D.judged} judged sites mix dimensions", "", key=f"{rule}:dimension-discipline")
+    rep.count("dimension_sites_judged", D.judged)
+    if D.judged < 20:
+        rep.unresolved(rule, "dimension-sites", f"only {D.judged} Decimal operations with both dimensions known (the inference vocabulary no longer fits the code)")
+
+
+def controls(pctx, rep):
+    import dims
+    try:
+        F = pctx.F
+        b = F.one("dims_mixed")
+        D = dims.Dims(F)
+        bad = D.conflicts([b])
+        rep.control("R5:dimensions", len(bad) == 1 and D.judged == 2, f"posctl::dims_mixed: {len(bad)} conflicts of {D.judged} judged sites (expected 1 of 2)")
+    except Exception as e:
+        rep.control("R5:dimensions", False, f"dimension engine failed on posctl::dims_mixed: {e}")
+
+
 def run(ctx, rep):
     R = Roles(ctx.F)
     appo = adjustments(R, rep)
     if appo:
         order_and_who(R, rep, appo)
     dividend_isolation(R, rep)
+    dimension_discipline(ctx.F, rep)
     # "in any currency": the event's value AND its fees reach the matcher in pounds at the line's own month's rate (shared with
     # C08-R1); a fee left in its own currency is netted off the GBP distribution as if it were pounds (seeded change C11-s4)
     import rules.c08 as c08
